@@ -84,6 +84,7 @@ type desc struct {
 	MaxConns int    `json:"maxconns,omitempty"`
 	Reset    bool   `json:"reset,omitempty"`
 	Lifo     bool   `json:"lifo,omitempty"`
+	Client   bool   `json:"client,omitempty"` // seq: go through fasthttp.Client (shared reader pool) instead of a HostClient
 	Ops      []opD  `json:"ops,omitempty"`
 	Seed     int64  `json:"seed,omitempty"`
 	Workers  int    `json:"workers,omitempty"`
@@ -346,22 +347,60 @@ type openStream struct {
 	conn *fconn
 }
 
+type doer interface {
+	Do(req *fasthttp.Request, resp *fasthttp.Response) error
+	DoTimeout(req *fasthttp.Request, resp *fasthttp.Response, timeout time.Duration) error
+	DoDeadline(req *fasthttp.Request, resp *fasthttp.Response, deadline time.Time) error
+	CloseIdleConnections()
+	IdleConnsCount() int
+	ConnsCount() int
+}
+
 func runSeq(d desc) (obs [][]uint64) {
 	nw := &fnet{scripts: map[int]scriptD{}, lastConn: -1}
-	hc := &fasthttp.HostClient{
-		Addr: "scripted:80", MaxConns: d.MaxConns, MaxIdemponentCallAttempts: 1,
-		ReadTimeout: time.Hour, MaxResponseBodySize: d.Max * U, Dial: nw.dial,
-		RetryIf: func(*fasthttp.Request) bool { return false },
-	}
-	if d.Reset {
-		hc.MaxConnDuration = time.Nanosecond
-	}
-	if d.Lifo {
-		hc.ConnPoolStrategy = fasthttp.LIFO
+	never := func(*fasthttp.Request) bool { return false }
+	var hc doer
+	if d.Client {
+		c := &fasthttp.Client{
+			MaxConnsPerHost: d.MaxConns, MaxIdemponentCallAttempts: 1,
+			ReadTimeout: time.Hour, MaxResponseBodySize: d.Max * U, Dial: nw.dial, RetryIf: never,
+		}
+		if d.Reset {
+			c.MaxConnDuration = time.Nanosecond
+		}
+		if d.Lifo {
+			c.ConnPoolStrategy = fasthttp.LIFO
+		}
+		hc = c
+	} else {
+		h := &fasthttp.HostClient{
+			Addr: "scripted:80", MaxConns: d.MaxConns, MaxIdemponentCallAttempts: 1,
+			ReadTimeout: time.Hour, MaxResponseBodySize: d.Max * U, Dial: nw.dial, RetryIf: never,
+		}
+		if d.Reset {
+			h.MaxConnDuration = time.Nanosecond
+		}
+		if d.Lifo {
+			h.ConnPoolStrategy = fasthttp.LIFO
+		}
+		hc = h
 	}
 	streams := map[int]*openStream{}
 	pool := func() []uint64 { return []uint64{uint64(hc.IdleConnsCount()), uint64(hc.ConnsCount())} }
 	for _, op := range d.Ops {
+		nobs := len(obs)
+		if msg := hlib.Protect(func() { obs = runOp(nw, hc, streams, pool, op, obs) }); msg != "" {
+			if debug {
+				fmt.Fprintln(os.Stderr, "panic in the code under test:", msg)
+			}
+			obs = append(obs[:nobs], []uint64{7})
+		}
+	}
+	return obs
+}
+
+func runOp(nw *fnet, hc doer, streams map[int]*openStream, pool func() []uint64, op opD, obs [][]uint64) [][]uint64 {
+	{
 		switch op.Op {
 		case "call":
 			o, sc := *op.Opts, *op.Sc
@@ -720,54 +759,84 @@ func runStress(d desc) []hcall {
 			for j := 0; j < d.PerW; j++ {
 				id := w*d.PerW + j
 				b := behOf(d.Seed, id, d.Skip)
-				req := fasthttp.AcquireRequest()
-				resp := &fasthttp.Response{}
-				req.SetRequestURI("http://stress/")
-				if b.head {
-					req.Header.SetMethod("HEAD")
-				}
-				req.Header.Set("X-Id", strconv.Itoa(id))
-				resp.StreamBody = b.stream
-				resp.SkipBody = b.skip
-				var err error
-				if b.timeout > 0 {
-					err = hc.DoTimeout(req, resp, b.timeout)
-				} else {
-					err = hc.Do(req, resp)
-				}
-				h := hcall{id: id, isHead: b.head, code: classify(err)}
-				if err == nil {
-					if v, e := strconv.ParseUint(string(resp.Header.Peek("X-Id")), 10, 64); e == nil {
-						h.hdr = v
-					} else {
-						h.hdr = 999999999
+				h := hcall{id: id, isHead: b.head, code: 7}
+				hlib.Protect(func() { // a panic of the code under test is recorded as outcome 7
+					req := fasthttp.AcquireRequest()
+					resp := &fasthttp.Response{}
+					req.SetRequestURI("http://stress/")
+					if b.head {
+						req.Header.SetMethod("HEAD")
 					}
-					if bs := resp.BodyStream(); bs != nil {
-						var got []byte
-						if b.early {
-							pre, _ := stressBody(id, b)
-							buf := make([]byte, len(pre))
-							n, _ := io.ReadFull(bs, buf)
-							got = buf[:n]
+					req.Header.Set("X-Id", strconv.Itoa(id))
+					resp.StreamBody = b.stream
+					resp.SkipBody = b.skip
+					var err error
+					if b.timeout > 0 {
+						err = hc.DoTimeout(req, resp, b.timeout)
+					} else {
+						err = hc.Do(req, resp)
+					}
+					h = hcall{id: id, isHead: b.head, code: 7}
+					if err == nil {
+						if v, e := strconv.ParseUint(string(resp.Header.Peek("X-Id")), 10, 64); e == nil {
+							h.hdr = v
 						} else {
-							got, _ = io.ReadAll(bs)
+							h.hdr = 999999999
 						}
-						resp.CloseBodyStream()
-						h.body = bodyIDs(got)
-					} else {
-						h.body = bodyIDs(resp.Body())
+						if bs := resp.BodyStream(); bs != nil {
+							var got []byte
+							if b.early {
+								pre, _ := stressBody(id, b)
+								buf := make([]byte, len(pre))
+								n, _ := io.ReadFull(bs, buf)
+								got = buf[:n]
+							} else {
+								got, _ = io.ReadAll(bs)
+							}
+							resp.CloseBodyStream()
+							h.body = bodyIDs(got)
+						} else {
+							h.body = bodyIDs(resp.Body())
+						}
 					}
-				}
-				fasthttp.ReleaseRequest(req)
+					h.code = classify(err)
+					fasthttp.ReleaseRequest(req)
+				})
 				mu.Lock()
 				hist = append(hist, h)
 				mu.Unlock()
 			}
 		}(w)
 	}
-	wg.Wait()
+	if !waitOrGiveUp(&wg) {
+		return snapshot(&mu, &hist, true)
+	}
 	hc.CloseIdleConnections()
-	return hist
+	return snapshot(&mu, &hist, false)
+}
+
+// waitOrGiveUp waits for the workers of a concurrent history.  If the code under test hangs (workers stuck for 15 s although every
+// call has a deadline) the history recorded so far is kept, marked with an outcome-8 entry, and the run goes on: the stuck
+// goroutines are abandoned, so that the cases already run are still evaluated.
+func waitOrGiveUp(wg *sync.WaitGroup) bool {
+	done := make(chan struct{})
+	go func() { wg.Wait(); close(done) }()
+	select {
+	case <-done:
+		return true
+	case <-time.After(15 * time.Second):
+		return false
+	}
+}
+
+func snapshot(mu *sync.Mutex, hist *[]hcall, hung bool) []hcall {
+	mu.Lock()
+	defer mu.Unlock()
+	out := append([]hcall(nil), (*hist)...)
+	if hung {
+		out = append(out, hcall{id: 999999, code: 8})
+	}
+	return out
 }
 
 // PipelineClient history
@@ -862,8 +931,7 @@ func runPipe(d desc) []hcall {
 			}
 		}(w)
 	}
-	wg.Wait()
-	return hist
+	return snapshot(&mu, &hist, !waitOrGiveUp(&wg))
 }
 
 type nopLogger struct{}
@@ -936,7 +1004,7 @@ func wireLen(isHead bool, r respD) int {
 }
 
 func genSeq(r *rand.Rand) desc {
-	d := desc{Kind: "seq", Max: hlib.Pick(r, []int{0, 0, 2, 3, 4}), MaxConns: 1 + r.Intn(3), Reset: r.Intn(15) == 0, Lifo: r.Intn(2) == 0}
+	d := desc{Kind: "seq", Max: hlib.Pick(r, []int{0, 0, 2, 3, 4}), MaxConns: 1 + r.Intn(3), Reset: r.Intn(15) == 0, Lifo: r.Intn(2) == 0, Client: r.Intn(3) == 0}
 	ncalls := 2 + r.Intn(7)
 	var open []int
 	skipAllowed := r.Intn(4) == 0
@@ -1072,6 +1140,42 @@ func corpus() []desc {
 				call(1, get, full(lenResp(1))))
 		}
 	}
+	// overlapping calls: Do(0) streamed, Do(1) (streamed or not) BEFORE body 0 is read, then body 0, then body 1, for every framing, on a
+	// HostClient and on a Client (shared reader pool).  Each body must be its own response: the bufio.Reader a streamed body reads from
+	// belongs to that stream until CloseBodyStream, whatever other calls do in between.
+	for _, fr := range []string{"chunked", "ident", "len"} {
+		mk := func() (respD, scriptD) {
+			switch fr {
+			case "chunked":
+				return chunkedResp(4), full(chunkedResp(4))
+			case "ident":
+				r := respD{Head: headD{Fr: "ident"}, Body: plain(4)}
+				return r, scriptD{Resp: r, Send: 9, Close: true}
+			}
+			return lenResp(4), full(lenResp(4))
+		}
+		r0, sc0 := mk()
+		_, sc1 := mk()
+		wl := wireLen(false, r0)
+		part := scriptD{Resp: r0, Send: 2, Close: false}
+		for _, cl := range []bool{false, true} {
+			for _, second := range []optsD{stream, get} {
+				ops := []opD{call(0, stream, sc0), call(1, second, sc1), {Op: "sread", T: 0, N: 9}}
+				late := []opD{call(0, stream, part), call(1, second, sc1), {Op: "conn", T: 0, N: wl, Close: fr == "ident"}, {Op: "sread", T: 0, N: 9}}
+				for _, o := range []*[]opD{&ops, &late} {
+					if second.Stream {
+						*o = append(*o, opD{Op: "sread", T: 1, N: 9})
+					}
+					*o = append(*o, opD{Op: "sclose", T: 0})
+					if second.Stream {
+						*o = append(*o, opD{Op: "sclose", T: 1})
+					}
+					*o = append(*o, call(2, get, full(lenResp(1))), call(3, stream, full(lenResp(1))), opD{Op: "sread", T: 3, N: 2}, opD{Op: "sclose", T: 3})
+					c = append(c, desc{Kind: "seq", Max: 2, MaxConns: 2, Client: cl, Ops: *o})
+				}
+			}
+		}
+	}
 	// ... read to the end: reused
 	add(2, 1, call(0, stream, full(crafted("len", 5, 2))), opD{Op: "sread", T: 0, N: 5}, opD{Op: "sclose", T: 0}, call(1, get, full(lenResp(1))))
 	add(2, 1, call(0, stream, full(crafted("len", 5, 2))), opD{Op: "sread", T: 0, N: 6}, opD{Op: "sclose", T: 0}, call(1, get, full(lenResp(1))))
@@ -1167,7 +1271,7 @@ func main() {
 		PropOK:   "prop_ok",
 		Rule: "directed corpus (keep-alive reuse, streamed bodies closed at every offset incl. exactly where a crafted response starts, chunked terminator left unread, " +
 			"in-memory streams, delayed tails, until-close bodies, HEAD/304 with Content-Length, Connection: close, MaxConnDuration, body limits, truncation, stalls, silent closes, " +
-			"write failures, MaxConns exhaustion, SkipBody on GET with a crafted body) then seeded random sequential histories of 3-9 calls with random scripts and stream operations; " +
+			"write failures, MaxConns exhaustion, SkipBody on GET with a crafted body, overlapping streamed calls on HostClient and Client read in either order) then seeded random sequential histories of 3-9 calls with random scripts and stream operations; " +
 			"every 40th case a concurrent HostClient stress history and a PipelineClient history; non-trivial = distinct sequence of (operation, outcome, pool counts)",
 		Corpus:   corpus,
 		Gen:      gen,
